@@ -160,6 +160,25 @@ def run(ctx):
                               f"two classes produced by one class factory (same name, module and qualified name, same metaclass), hash function {hf}: {why}",
                               replay="from edgegraph.structure.singleton import *\nM = semi_singleton_metaclass()\ndef make():\n    class Twin(metaclass=M):\n        def __init__(self, x): self.x = x\n    return Twin\n"
                                      "T1, T2 = make(), make()\na = T1(1)\nb = T2(1)\nprint(type(a) is T1, type(b) is T2, a is not b, check_semi_singleton_entry_exists(T2, 1) is b)")
+    # ---- many classes: one class's live mapping survives any number of other semi-singleton classes being used in between (sizes: the
+    # ones the tree names - e.g. the capacity of a memo in front of the per-class maps - and a default one)
+    for hf in ("None",):
+        for size in common.scale_sizes(ctx, res):
+            if size > 300:
+                continue
+            try:
+                why = many_classes(h, hf, size)
+            except Unknown as u:
+                res.ob(False)
+                res.undecide(f"many classes hashfunc={hf} size={size}: {u}")
+                continue
+            n += 1
+            res.ob(why is None, sig=("many-classes", hf, size))
+            if why:
+                res.violation("MAP-STEP", MOD + ".semi_singleton_metaclass.<locals>._SemiSingleton.__call__", f"hashfunc={hf},many-classes,after-clear-and-reconstruct",
+                              f"C(1); clear_semi_singleton(C); C(1) again; then {size} other semi-singleton classes (products of one class factory) are constructed once each: {why}",
+                              replay="from edgegraph.structure.singleton import *\nM = semi_singleton_metaclass()\ndef make():\n    class K(metaclass=M):\n        def __init__(self, x): self.x = x\n    return K\n"
+                                     f"C = make(); C(1); clear_semi_singleton(C); i2 = C(1)\nfor K in [make() for _ in range({size})]: K(1)\nprint(C(1) is i2, check_semi_singleton_entry_exists(C, 1) is i2)")
     # ---- a constructor that raises: nothing is mapped, the next attempt runs __init__ again
     for hf in ("None", "first"):
         try:
@@ -317,6 +336,45 @@ def failing_ctor(h, hf):
     o2 = h.call(G, 1)
     if o1.kind != "return" or o2.kind != "return" or o1.value is not o2.value or len(attempts.items) != 3:
         return f"afterwards G(1) twice gives {o1!r}, {o2!r} with {len(attempts.items) - 2} __init__ run(s)"
+    return None
+
+
+def many_classes(h, hf, size):
+    h.reset()
+    m = h.w.load_text("verif_c17", SRC.replace("@HF@", hf))
+    h.w.mods.pop("verif_c17", None)
+    g = m.globals
+    h.settle()
+    h.w.step_budget = max(h.w.step_budget, 400000 + 6000 * size)
+    log = g["LOG"]
+    check, get_all, make = g["check_semi_singleton_entry_exists"], g["get_all_semi_singleton_instances"], g["make_twin"]
+    C = h.call(make, "C").value
+    o1 = h.call(C, 1)
+    h.call(g["clear_semi_singleton"], C)
+    o2 = h.call(C, 1)
+    if o1.kind != "return" or o2.kind != "return" or o2.value is o1.value:
+        return None         # the clear / re-construct step itself is decided by the MAP-STEP rows
+    i2 = o2.value
+    for j in range(size):
+        h.w.steps = 0
+        K = h.call(make, f"K{j}").value
+        o = h.call(K, 1)
+        if o.kind != "return" or not isinstance(o.value, Obj) or o.value.cls is not K:
+            return f"the {j + 1}-th other class: K(1) gives {o!r}"
+    before = len(log.items)
+    h.w.steps = 0
+    c = h.call(check, C, 1)
+    if c.kind != "return" or c.value is not i2:
+        return f"check_semi_singleton_entry_exists(C, 1) reports {c!r}, the live mapping is the instance made after the clear"
+    o3 = h.call(C, 1)
+    if o3.kind != "return" or o3.value is not i2:
+        return f"C(1) returns {o3!r} instead of the live instance of that key"
+    if len(log.items) != before:
+        return f"C(1) ran __init__ again ({len(log.items) - before} time(s)) although its key is live"
+    ga = h.call(get_all, C)
+    items = h.I.iterate(ga.value) if ga.kind == "return" else None
+    if items is None or len(items) != 1 or items[0] is not i2:
+        return f"get_all_semi_singleton_instances(C) reports {ga!r}, the live mappings are exactly [the instance made after the clear]"
     return None
 
 
